@@ -238,17 +238,23 @@ func ruleC08Callbacks(c *Checker) {
 			if bi, ok := cl.Call.Value.(*ssa.Builtin); !ok || bi.Name() != "append" {
 				return
 			}
-			// the appended element carries the callback's parameters
-			carries := false
+			// the appended element carries every one of the callback's parameters
+			used := map[*ssa.Parameter]bool{}
 			if sl, ok := cl.Call.Args[1].(*ssa.Slice); ok {
 				if al, ok := sl.X.(*ssa.Alloc); ok {
 					for _, w := range elemWrites(al) {
 						for v := range p.backSlice(w.Val, 0) {
 							if prm, ok := v.(*ssa.Parameter); ok && prm.Parent() == cf {
-								carries = true
+								used[prm] = true
 							}
 						}
 					}
+				}
+			}
+			carries := len(cf.Params) > 0
+			for _, prm := range cf.Params {
+				if !used[prm] {
+					carries = false
 				}
 			}
 			switch tgt {
@@ -1026,17 +1032,57 @@ func ruleC17Dep(c *Checker) {
 		if !argsDep {
 			return
 		}
-		// the true edge guards the assignment of the element's Deprecation
+		// the true edge guards the assignment of the Deprecation of the very element whose Version was compared
+		var verBases []ssa.Value
+		for _, a := range cl.Call.Args {
+			for x := range p.backSlice(a, 0) {
+				if fa, ok := x.(*ssa.FieldAddr); ok && fieldOf(fa).Name() == "Version" {
+					verBases = append(verBases, canon(fa.X))
+				}
+			}
+		}
 		t, _ := boolEdges(fn, cl)
 		for _, e := range t {
 			for _, x := range e.To().Instrs {
 				if fa, ok := x.(*ssa.FieldAddr); ok && fieldOf(fa).Name() == "Deprecation" {
-					depOK = true
+					for _, vb := range verBases {
+						if canon(fa.X) == vb {
+							depOK = true
+						}
+					}
 				}
 			}
 		}
 	})
 	c.check(depOK, R, name, "deprecation of the selected version", p.Pos(site.Pos()), "the recorded deprecation is the one attached to the element whose version is the selected one", "the deprecation note recorded is not tied to the selected version")
+	// the infos searched for that element are the registry's answer on the fresh path and its cached copy on the hit path
+	var rangedOK, ranged = true, 0
+	eachInstr(fn, func(in ssa.Instruction) {
+		fa, ok := in.(*ssa.FieldAddr)
+		if !ok || fieldOf(fa).Name() != "Deprecation" {
+			return
+		}
+		// the element's origin: a slice being ranged/indexed
+		for _, l := range p.origins(fa.X, 0) {
+			_ = l
+		}
+		for v := range p.backSlice(fa.X, 0) {
+			ia, ok := v.(*ssa.IndexAddr)
+			if !ok {
+				continue
+			}
+			ranged++
+			for _, l := range p.origins(ia.X, 0) {
+				switch {
+				case l.Kind == "lookup" && builderMapOf(l.Base) == "registryPackageVersions":
+				case l.Kind == "field" && l.Field != nil && l.Field.Name() == "Versions":
+				default:
+					rangedOK = false
+				}
+			}
+		}
+	})
+	c.check(ranged > 0 && rangedOK, R, name, "deprecation looked up in the registry's answer on every path", p.Pos(site.Pos()), "the list searched is the response's versions or their cached copy", "on some path (e.g. a cache hit) the list searched for the selected version's deprecation is not the registry's answer (empty / a different list): whether a note is recorded then depends on the order packages were resolved in")
 }
 
 func ruleC17None(c *Checker) {
